@@ -276,10 +276,43 @@ def run(repo: Repo, chk: Check):
     # get_scope_name appends the module's name; get_function_name = scope + '.' + name
     gs = u.func("get_scope_name")
     chk.saw("utils", "get_scope_name")
-    okq = any(isinstance(c, ast.Call) and norm(c.func) == "parents.append" and norm(c.args[0]).endswith(".name") for c in ast.walk(gs)) and \
-        any(isinstance(c, ast.Call) and norm(c.func) == "'.'.join" for c in ast.walk(gs))
-    chk.judge("R13.e", "utils:get_scope_name:scope names are qualified with the module name", okq,
-              "get_scope_name no longer appends the module's name and joins with '.'", None, f"{u.path}:{gs.lineno}")
+    # the walk up the scopes ends at the module; its name must flow into every scope name that is returned (other than '' for built-ins)
+    walk_vars = set()
+    for w in ast.walk(gs):
+        if isinstance(w, ast.While):
+            for c in ast.walk(w.test):
+                if isinstance(c, ast.Call) and norm(c.func) == "isinstance" and len(c.args) == 2 and isinstance(c.args[0], ast.Name) and norm(c.args[1]).endswith("Module"):
+                    walk_vars.add(c.args[0].id)
+    if not walk_vars:
+        raise AnalysisError("get_scope_name: the walk up to the enclosing module (while ... not isinstance(<scope>, nodes.Module)) was not found")
+
+    def names_module(e, tainted):
+        for x in ast.walk(e):
+            if isinstance(x, ast.Attribute) and x.attr == "name" and isinstance(x.value, ast.Name) and x.value.id in walk_vars:
+                return True
+            if isinstance(x, ast.Name) and isinstance(x.ctx, ast.Load) and x.id in tainted:
+                return True
+        return False
+    tainted = set()
+    for _ in range(6):
+        before = len(tainted)
+        for st in ast.walk(gs):
+            if isinstance(st, ast.Assign) and names_module(st.value, tainted):
+                tainted |= {n.id for t in st.targets for n in ast.walk(t) if isinstance(n, ast.Name)} - walk_vars
+            if isinstance(st, ast.AugAssign) and names_module(st.value, tainted) and isinstance(st.target, ast.Name):
+                tainted.add(st.target.id)
+            if isinstance(st, ast.Call) and isinstance(st.func, ast.Attribute) and st.func.attr in ("append", "extend", "insert", "appendleft") and isinstance(st.func.value, ast.Name) \
+                    and any(names_module(a, tainted) for a in st.args):
+                tainted.add(st.func.value.id)
+        if len(tainted) == before:
+            break
+    rets = [r for r in ast.walk(gs) if isinstance(r, ast.Return) and r.value is not None and not (isinstance(r.value, ast.Constant) and r.value.value == "")]
+    if not rets:
+        raise AnalysisError("get_scope_name: no return of a scope name found")
+    unq = [norm(r.value)[:60] for r in rets if not names_module(r.value, tainted)]
+    chk.judge("R13.e", "utils:get_scope_name:scope names are qualified with the module name", not unq,
+              f"get_scope_name returns {unq} without the name of the enclosing module in it: equal function or variable names of two modules get the same scope name",
+              {"module name flows into": sorted(tainted)}, f"{u.path}:{gs.lineno}")
     gf = u.func("get_function_name")
     chk.saw("utils", "get_function_name")
     # every returned name is  <get_scope_name(node)> "." <local name>  when the scope name is not empty (and the local name alone otherwise)
@@ -419,6 +452,9 @@ def _keys_of_tables(e, rd, nid, fn, cfg, depth=0):
                     # a single element: a loop variable / pick over keys
                     if isinstance(a, ast.Name):
                         da = rd.at(at, a.id)
+                        # 'nothing found yet' (None) is not an element that is ever used as a key
+                        real = [x for x in da if not (x.kind == "assign" and isinstance(x.value, ast.Constant) and x.value.value is None)]
+                        da = real or da
                         ok = ok and bool(da) and all((x.kind == "for" and x.value is not None and _keys_of_tables(x.value, rd, x.node, fn, cfg, depth + 1)) or
                                                      (x.kind == "assign" and x.value is not None and _keys_of_tables(x.value, rd, x.node, fn, cfg, depth + 1)) for x in da)
                     else:
